@@ -15,6 +15,20 @@ VARIABLES i, bad, npin
 vars == <<i, bad, npin>>
 Same(a, b) == ToJson(a) = ToJson(b)
 
+\* the specification's value may leave a choice ("oneof") at any depth of an array, map or struct
+RECURSIVE Match(_, _)
+Match(s, o) ==
+  IF s[1] = "oneof" THEN \E j \in 2..Len(s) : Match(s[j], o)
+  ELSE IF s[1] = "arr" /\ Len(s[2]) > 0 THEN
+       /\ o[1] = "arr" /\ Len(o) = Len(s) /\ Len(o[2]) = Len(s[2])
+       /\ \A k \in 1..Len(s[2]) : Match(s[2][k], o[2][k])
+       /\ (Len(s) = 3 => Same(s[3], o[3]))
+  ELSE IF s[1] \in {"map", "struct"} /\ DOMAIN s[2] # {} THEN
+       /\ o[1] = s[1] /\ Len(o) = Len(s) /\ DOMAIN o[2] = DOMAIN s[2]
+       /\ \A k \in DOMAIN s[2] : Match(s[2][k], o[2][k])
+       /\ (Len(s) = 3 => Same(s[3], o[3]))
+  ELSE Same(s, o)
+
 \* Long division on 34-digit operands is too slow to compute in bulk in TLC, so a quotient or remainder
 \* at the root of the tree is *checked* against its defining (in)equalities by multiplication:
 \*   q = a / b  iff  DIsQuo(a, b, q)                     (half-ulp bracket, ties to even)
@@ -44,7 +58,7 @@ EventOK(e) ==
   /\ CASE o[1] = "unspec" -> TRUE
        [] o[1] = "err" -> e.out[1] = "err" /\ Same(o[2].log, e.out[2])
        [] o[1] = "ok" -> /\ e.out[1] = "ok"
-                         /\ IF o[2][1] = "oneof" THEN \E j \in 2..Len(o[2]) : Same(o[2][j], e.out[2]) ELSE Same(o[2], e.out[2])
+                         /\ Match(o[2], e.out[2])
                          /\ Same(o[3].log, e.out[3])
                          \* the float64 handed back to the caller (C04)
                          /\ (o[2][1] = "num" /\ Len(e.f64) = 3) => IsFloat64Of(DecOf(o[2]), e.f64)
